@@ -123,6 +123,14 @@ namespace nmtools::index
                 return return_t{meta::Nothing};
             }
 
+            // zero or negative (other than -1) extent is invalid
+            for (size_t i=0; i<(size_t)len(dst_shape); i++) {
+                auto d_i = (index_t)at(dst_shape,i);
+                if ((d_i != index_t(-1)) && (d_i <= index_t(0))) {
+                    return return_t{meta::Nothing};
+                }
+            }
+
             auto src_numel = (size_t)product(src_shape);
 
             if ((minus_1_count == 0) && (src_numel != dst_numel)) {
